@@ -58,7 +58,9 @@ func build(kind string, w *fakes.KMSWorld, regions []string, pref string) (*plug
 		return &plugin{"v1", k, pref, regions}, nil
 	default:
 		k, err := v2kms.NewBuilder(aead.NewAES256GCM(), arn).WithPreferredRegion(pref).WithAWSConfig(awsv2.Config{}).
-			WithKMSFactory(func(cfg awsv2.Config, _ ...func(*kmsv2svc.Options)) v2kms.AWSClient { return fakes.KMSV2{R: w.Regions[cfg.Region]} }).Build()
+			WithKMSFactory(func(cfg awsv2.Config, _ ...func(*kmsv2svc.Options)) v2kms.AWSClient {
+				return fakes.KMSV2{R: w.Regions[cfg.Region]}
+			}).Build()
 		if err != nil {
 			return nil, err
 		}
@@ -114,11 +116,11 @@ func keysOf(m map[string]bool) string {
 }
 
 type caseDesc struct {
-	n                          int
-	wrapper, wrapPref          string
-	failGen, failEnc           map[string]bool
-	unwrapper, unwrapPref      string
-	failDec, wrongDec          map[string]bool
+	n                     int
+	wrapper, wrapPref     string
+	failGen, failEnc      map[string]bool
+	unwrapper, unwrapPref string
+	failDec, wrongDec     map[string]bool
 }
 
 func (c caseDesc) String() string {
